@@ -159,7 +159,7 @@ class Ctx:
                 out.add(f["path"])
             if f["path"] in names and any(n.startswith("directory::Directory::from_") and "reader" in n for n in names):
                 out.add(f["path"])
-            if "Box<" in f["ret"] and "dyn " in f["ret"]:
+            if "Box<" in f["ret"] and "dyn " in f["ret"] and f["path"] not in self._factory_impls()[1]:
                 out.add(f["path"])
             if any(n.startswith("integer_encoding::") for n in names):
                 out.add(f["path"])
@@ -326,15 +326,36 @@ class Ctx:
                 out.append(f)
         return out
 
+    def _factory_impls(self):
+        """(direct, absorbed): Box<dyn ..>-returning local functions that match on a Compression; `absorbed` are the private ones whose only callers are
+        themselves Box<dyn ..>-returning functions (thin public wrappers) — the wrapper is then the factory and the implementation is evaluated in place"""
+        if "factory_impls" not in self._roles:
+            direct = []
+            for f in self.user_fns():
+                if "Box<" in f["ret"] and "dyn " in f["ret"]:
+                    for n in walk(f["body"]):
+                        if n["k"] == "Match" and n["e"]["ty"].endswith("Compression"):
+                            direct.append(f)
+                            break
+            dpaths = set(f["path"] for f in direct)
+            absorbed = set()
+            for f in direct:
+                if f["vis"] == "pub":
+                    continue
+                callers = [g for g in self.user_fns() if g["path"] != f["path"] and any(c["fn"] == f["path"] for c in calls(g["body"]))]
+                if callers and all("Box<" in g["ret"] and "dyn " in g["ret"] and g["path"] not in dpaths for g in callers):
+                    absorbed.add(f["path"])
+            self._roles["factory_impls"] = (direct, absorbed)
+        return self._roles["factory_impls"]
+
     def codec_factories(self):
-        """local functions returning Box<dyn Read|Write|AsyncRead|AsyncWrite> that match on a Compression"""
-        out = []
-        for f in self.user_fns():
-            if "Box<" in f["ret"] and "dyn " in f["ret"]:
-                for n in walk(f["body"]):
-                    if n["k"] == "Match" and n["e"]["ty"].endswith("Compression"):
-                        out.append(f)
-                        break
+        """local functions returning Box<dyn Read|Write|AsyncRead|AsyncWrite> that match on a Compression (themselves, or through a private
+        implementation function only they call)"""
+        direct, absorbed = self._factory_impls()
+        out = [f for f in direct if f["path"] not in absorbed]
+        for g in self.user_fns():
+            if "Box<" in g["ret"] and "dyn " in g["ret"] and g not in out and any(c["fn"] in absorbed for c in calls(g["body"])):
+                out.append(g)
         return out
 
 
@@ -631,6 +652,8 @@ def decision_facts(d):
             out.append(("eq" if d.d["outcome"] is True else "ne", v, pay))
     elif how == "try":
         out.append(("variant", v, "core::result::Result::Ok", d.d["outcome"] is True))
+    elif how == "tryopt":
+        out.append(("variant", v, "core::option::Option::Some", d.d["outcome"] is True))
     elif how == "entry":
         out.append(("variant", v, "std::collections::hash::map::Entry::Occupied", d.d["outcome"] is True))
     # Option: not Some ⇔ None
